@@ -328,6 +328,20 @@ impl Run {
         let base = std::env::var("VERIF_SCRATCH")
             .map(PathBuf::from)
             .unwrap_or_else(|_| self.verif_dir.join("mc").join("target").join("scratch"));
+        // directories left behind by runs that were killed (their pid is gone)
+        static SWEPT: std::sync::atomic::AtomicBool = std::sync::atomic::AtomicBool::new(false);
+        if !SWEPT.swap(true, std::sync::atomic::Ordering::SeqCst) {
+            if let Ok(rd) = std::fs::read_dir(&base) {
+                for e in rd.flatten() {
+                    let name = e.file_name().to_string_lossy().into_owned();
+                    if let Some(pid) = name.rsplit('-').next().and_then(|p| p.parse::<u32>().ok()) {
+                        if name.starts_with('C') && !std::path::Path::new(&format!("/proc/{}", pid)).exists() {
+                            let _ = std::fs::remove_dir_all(e.path());
+                        }
+                    }
+                }
+            }
+        }
         let d = base.join(format!("{}-{}", self.prop, std::process::id()));
         std::fs::create_dir_all(&d)
             .unwrap_or_else(|e| machinery_fault(&format!("cannot create scratch {:?}: {}", d, e)));
@@ -386,6 +400,15 @@ impl Run {
         let a = first.as_ref().map(|v| (v.observed.clone(), v.expected.clone()));
         let b = second.as_ref().map(|v| (v.observed.clone(), v.expected.clone()));
         if a != b {
+            // both executions run in this process: a fault that depends on what an earlier call left
+            // behind (a cache, a thread-local) legitimately shows in one of them only
+            if let Some(v) = first.as_ref().or(second.as_ref()) {
+                println!(
+                    "REPLAY property={} kind={} reproduces in one of two executions in the same process (history-dependent): expected {} observed {} ({})",
+                    self.prop, v.kind, v.expected, v.observed, v.note
+                );
+                std::process::exit(1);
+            }
             machinery_fault("replay diverged between two executions of the same case");
         }
         match first {
@@ -405,6 +428,13 @@ impl Run {
 
     /// Write evidence, replay files and the verdict lines; exit.
     pub fn finish(&self) -> ! {
+        // the watchdog of C17 and the main thread may both get here: the first one writes the verdict
+        static FINISHING: std::sync::atomic::AtomicBool = std::sync::atomic::AtomicBool::new(false);
+        if FINISHING.swap(true, std::sync::atomic::Ordering::SeqCst) {
+            loop {
+                std::thread::sleep(std::time::Duration::from_secs(3600));
+            }
+        }
         let wall = self.start.elapsed().as_secs_f64();
         let mut total = std::mem::take(&mut *self.total.lock().unwrap());
         let caps = self.caps.lock().unwrap().clone();
